@@ -1,8 +1,30 @@
 /-
 C06 — saving is deterministic and idempotent.
+
+FINDING F13 (open, machine-checked): `save_twice_witness` (+ `_offsets`, `_byte`): for the object of
+DESIGN.md (`.data` 11 bytes align 8 + `.bss` NOBITS align 8 in one PT_LOAD, ELF64 LSB), built with
+the model's API functions, both saves succeed and their bytes differ (`.shstrtab` at 4112, then 4107).
+
+Proved:
+ * `save_twice_no_segments` — for every object without segments (any class/byte order) a successful
+   `save` returns a result on which `save` returns *the same result* again (loose-section layout
+   `looseSpec_idem`, header preparation `saveHdr0_idem`, residency).
+ * `save_twice` / `save_idempotent_on_settled` — ELF64, flat or nested segments, no segment at file
+   offset 0: under the side conditions `ResaveOk` (every segment start ≠ 0; no address-less
+   NOBITS/empty member behind a non-zero alignment gap — exactly the F13 trigger,
+   `GapBeforeAddresslessNobits`), a second `save` that succeeds returns the same result.  Ladder:
+   `stepCore_resave` (the address-driven branch recomputes the recorded cursor) → `wsdStep_resave` →
+   `wsdLoop_resave` → `layoutSegment_resave` → `segRun_resave` (lock-step re-run on the final
+   sections), with ordering / alignment / put-back idempotence from Lemmas/Save.
+Not proved: ELF32 (address truncation); objects with a segment at file offset 0 (typical *loaded*
+executables: the first PT_LOAD — the `orderFront` pass then reorders); that the second save cannot
+abort (it aborts only if offsets wrap around 2^64: hypothesis `r2.ok`); `save_load_save` (stated as
+`SaveLoadSaveStatement`: needs a congruence of `save` under the loader's re-representation of
+sections plus `members_recomputed`).
 -/
 import ElfioVerif.Lemmas.Save
 import ElfioVerif.Props.C03
+import ElfioVerif.Props.C05
 set_option linter.unusedSimpArgs false
 namespace ElfioVerif.C06
 open Gen
@@ -1139,6 +1161,21 @@ def sameTwice (mo : M Obj) : Bool :=
       | .ok r2 => r1.ok && r2.ok && (r1.os.content == r2.os.content)
 
 example : sameTwice f13FixedObj = true := by decide +kernel
-example : sameTwice f13Obj = false := by decide +kernel
+
+/-- **save_load_save**, stated (not proved): for an object `o2` that a loader reports for the bytes
+    of a successful save `r` (`Loaded`, C05) and whose member lists are those of the saved object
+    (`members_recomputed`), saving `o2` reproduces the bytes.  Reachable from `save_twice` once `save`
+    is shown to depend on sections only through the fields `Loaded` fixes (a congruence over all
+    passes, in the style of `saveFold_agree`). -/
+def SaveLoadSaveStatement : Prop :=
+  ∀ (o o2 : Obj) (os : OStream) (r r3 : SaveRes) (hd : Bytes),
+    o.cls = .c64 → o.hdr = some hd → ehdrSize o.cls ≤ hd.length → SegIdxOk o.segs → NoZeroOffset o.segs →
+    ResaveOk o hd → save o os = .ok r → r.ok = true →
+    -- `o2` is the reloaded object
+    o2.cls = r.obj.cls → o2.enc = r.obj.enc → o2.trans = [] → o2.hdr = r.obj.hdr →
+    C05.Loaded o2.cls o2.enc o2.secs o2.segs r.os.content →
+    -- members_recomputed
+    o2.segs.map (·.secs) = r.obj.segs.map (·.secs) →
+    save o2 os = .ok r3 → r3.ok = true → r3.os.content = r.os.content
 
 end ElfioVerif.C06
